@@ -113,26 +113,43 @@ deriving Repr
 inductive Out | success | failure | unreachable
 deriving DecidableEq, Repr
 
+/-- A request addressed to ONE node (the path below `network/node/<name>/`).  It is what an agent action sends to the
+node, and also what a terminal command carries: `Terminal.execute` hands the command to `Node.apply_request`, so a command
+may itself be a terminal request (a login, a command, a logoff towards a third node): commands nest. -/
+inductive Cmd
+  /-- `file_system create file root <k> False` -/
+  | file (k : Nat)
+  | addUser (u p : String) (admin : Bool)
+  | disableUser (u : String)
+  | changePassword (u old new : String)
+  /-- `service terminal send_local_command u p {command}` -/
+  | localCmd (u p : String) (c : Cmd)
+  /-- `service terminal node_session_remote_login u p ip(y)` -/
+  | remoteLogin (y : Nat) (u p : String)
+  /-- `service terminal send_remote_command ip(y) {command}` -/
+  | remoteCmd (y : Nat) (c : Cmd)
+  /-- `service terminal remote_logoff ip(y)` -/
+  | remoteLogoff (y : Nat)
+  /-- `service user-session-manager remote_login u p ip(peer)` (direct request; no action builds it) -/
+  | usmLogin (u p : String) (peer : Nat)
+  /-- `service user-session-manager remote_logout <id>`; the id is that of the `i`-th remote session of the node
+  (dictionary order), or an id the node does not know when there is no such session -/
+  | usmLogout (i : Nat)
+  | svc (s : SvcName) (v : Verb)
+  | shutdown
+  | startup
+  | reset
+deriving Repr
+
 inductive Op
-  | addUser (y : Nat) (u p : String) (admin : Bool)
-  | disableUser (y : Nat) (u : String)
-  | changePassword (y : Nat) (u old new : String)
+  /-- `Simulation.apply_request(["network", "node", <y>, ...])` -/
+  | req (y : Nat) (c : Cmd)
+  /-- `UserManager.enable_user` (Python API; no request exists) -/
+  | enableUser (y : Nat) (u : String)
   /-- `Node.local_login` (Python API) -/
   | localLogin (y : Nat) (u p : String)
   /-- `Node.local_logout` (Python API) -/
   | localLogout (y : Nat)
-  /-- request `service terminal send_local_command u p {command}` -/
-  | localCmd (y : Nat) (u p : String) (k : Nat)
-  /-- request `service terminal node_session_remote_login u p ip(y)` on node `x` -/
-  | remoteLogin (x y : Nat) (u p : String)
-  /-- request `service terminal send_remote_command ip(y) {command}` on node `x` -/
-  | remoteCmd (x y : Nat) (k : Nat)
-  /-- request `service terminal remote_logoff ip(y)` on node `x` -/
-  | remoteLogoff (x y : Nat)
-  | svc (y : Nat) (s : SvcName) (v : Verb)
-  | shutdown (y : Nat)
-  | startup (y : Nat)
-  | reset (y : Nat)
   /-- end of one environment step and start of the next: `apply_timestep(t+1)` then `pre_timestep(t+1)` -/
   | tick
 deriving Repr
@@ -196,6 +213,8 @@ def updUser (l : List User) (u : String) (f : User → User) : List User :=
 
 def Node.setDisabled (u : String) (nd : Node) : Node :=
   { nd with users := updUser nd.users u (fun v => { v with disabled := true }) }
+def Node.setEnabled (u : String) (nd : Node) : Node :=
+  { nd with users := updUser nd.users u (fun v => { v with disabled := false }) }
 def Node.setPassword (u new : String) (nd : Node) : Node :=
   { nd with users := updUser nd.users u (fun v => { v with password := new }) }
 def Node.addFile (k : Nat) (nd : Node) : Node := { nd with files := nd.files ++ [k] }
@@ -209,17 +228,6 @@ def Node.localLogout (nd : Node) : Node := if nd.canUsm then nd.clearLoc else nd
 /-- `remote_session.last_active_step = current_timestep` -/
 def Node.touch (cid t : Nat) (nd : Node) : Node :=
   { nd with rem := nd.rem.map (fun s => if s.id == cid then { s with last := t } else s) }
-
-/-- the terminal command: `apply_request(["file_system","create","file","root",<k>,False])` on the node
-(`file_system` route is guarded by the node-is-on validator). -/
-def Node.exec (nd : Node) (k : Nat) : Node × Out :=
-  if nd.isOn then (nd.addFile k, .success) else (nd, .failure)
-
-/-- `LocalTerminalConnection.execute`: only while the terminal is RUNNING -/
-def Node.localExec (k : Nat) (nd : Node) : Node := if nd.term.running then (nd.exec k).1 else nd
-
-/-- what `Terminal.receive` does to the target for an accepted command -/
-def Node.remoteExec (cid t k : Nat) (nd : Node) : Node := ((nd.touch cid t).exec k).1
 
 /-! ### service lifecycle (service.py) -/
 
@@ -273,10 +281,12 @@ def Node.powerOn (nd : Node) : Node × Bool :=
   else if nd.power = .off then ({ nd with power := .booting, upCd := nd.startDur }, true)
   else (nd, false)
 
-/-- as written: with `shut_down_duration = 0` the NICs are not disabled (DESIGN F-14, property C12's business;
-the rig of C16 only uses durations ≥ 1) -/
+/-- with `shut_down_duration = 0` the node is OFF at once (NICs disabled, services stopped), and a resetting node powers
+on again at once (repaired code: DESIGN F-14 and the reset-with-duration-0 fix) -/
 def Node.powerOff (nd : Node) : Node × Bool :=
-  if nd.shutDur = 0 then ({ nd.shutDownActions with power := .off }, true)
+  if nd.shutDur = 0 then
+    let o : Node := { nd.shutDownActions with nic := false, power := .off }
+    if o.resetting then (({ o with resetting := false } : Node).powerOn.1, true) else (o, true)
   else if nd.power = .on then ({ nd with nic := false, power := .shuttingDown, downCd := nd.shutDur }, true)
   else (nd, false)
 
@@ -474,16 +484,32 @@ def opLocalLogout (n : Net) (y : Nat) : Net × Out :=
   | none => (n, .unreachable)
   | some nd => if nd.canUsm && nd.loc.isSome then (n.upd y Node.localLogout, .success) else (n, .failure)
 
-/-- `_process_local_login`, `_create_local_connection`, `LocalTerminalConnection.execute`; the handler answers
-"success" whatever happened -/
-def opLocalCmd (n : Net) (y : Nat) (u p : String) (k : Nat) : Net × Out :=
+/-- `file_system create file root <k>` on node `y` (the `file_system` route carries the node-is-on validator) -/
+def opFile (n : Net) (y k : Nat) : Net × Out :=
+  match n.node y with
+  | none => (n, .unreachable)
+  | some nd => if !nd.isOn then (n, .failure) else (n.upd y (Node.addFile k), .success)
+
+/-- `UserManager.enable_user` (no guard at all in the code) -/
+def opEnableUser (n : Net) (y : Nat) (u : String) : Net × Out :=
+  match n.node y with
+  | none => (n, .unreachable)
+  | some nd =>
+    match nd.findUser u with
+    | none => (n, .failure)
+    | some w => if w.disabled then (n.upd y (Node.setEnabled u), .success) else (n, .failure)
+
+/-- `_process_local_login`, `_create_local_connection`, `LocalTerminalConnection.execute` (only while the terminal is
+RUNNING); `K` = what `Node.apply_request(command)` does; the handler answers "success" whatever happened -/
+def opLocalCmdK (K : Net → Net × Out) (n : Net) (y : Nat) (u p : String) : Net × Out :=
   match n.node y with
   | none => (n, .unreachable)
   | some nd =>
     if !nd.isOn then (n, .failure) else
     match (localLogin n y u p).2 with
     | some id =>
-      (((localLogin n y u p).1.upd y (Node.addConn ⟨id, none⟩)).upd y (Node.localExec k), .success)
+      if nd.term.running then ((K ((localLogin n y u p).1.upd y (Node.addConn ⟨id, none⟩))).1, .success)
+      else ((localLogin n y u p).1.upd y (Node.addConn ⟨id, none⟩), .success)
     | none => ((localLogin n y u p).1, .success)
 
 def opRemoteLogin (n : Net) (x y : Nat) (u p : String) : Net × Out :=
@@ -503,7 +529,9 @@ def opRemoteLogin (n : Net) (x y : Nat) (u p : String) : Net × Out :=
         if canDeliver n1 y x then (n1.upd x (Node.addConn ⟨n.nextId, some y⟩), .success) else (n1, .failure)
       else (n, .failure)
 
-def opRemoteCmd (n : Net) (x y : Nat) (k : Nat) : Net × Out :=
+/-- `send_remote_command`; `K` = what `Node.apply_request(command)` does on the target once `Terminal.receive` accepted
+the command (after `last_active_step` was set) -/
+def opRemoteCmdK (K : Net → Net × Out) (n : Net) (x y : Nat) : Net × Out :=
   match n.node x with
   | none => (n, .unreachable)
   | some a =>
@@ -521,8 +549,9 @@ def opRemoteCmd (n : Net) (x y : Nat) (k : Nat) : Net × Out :=
         -- Terminal.receive on y: SSH_MSG_SERVICE_REQUEST -> _check_client_connection
         if b.hasSession c.id then
           if b.hasConn c.id then
-            (n.upd y (Node.remoteExec c.id n.time k),
-             if canDeliver (n.upd y (Node.remoteExec c.id n.time k)) y x then ((b.touch c.id n.time).exec k).2 else .failure)
+            ((K (n.upd y (Node.touch c.id n.time))).1,
+             -- the answer travels back to x (whose terminal must be RUNNING to see it)
+             if canDeliver (K (n.upd y (Node.touch c.id n.time))).1 y x then (K (n.upd y (Node.touch c.id n.time))).2 else .failure)
           else (n, .failure)
         else (disconnect n.fuel n y c.id, .failure)
 
@@ -561,20 +590,54 @@ def opReset (n : Net) (y : Nat) : Net × Out :=
   | some nd =>
     if !nd.isOn then (n, .failure) else (n.upd y Node.resetOff, .success)
 
+/-- direct request `user-session-manager remote_login u p ip(peer)`: `_login(local=False)`; a session, no terminal connection -/
+def opUsmLogin (n : Net) (y : Nat) (u p : String) (peer : Nat) : Net × Out :=
+  match n.node y with
+  | none => (n, .unreachable)
+  | some b =>
+    if !b.isOn then (n, .failure) else
+    if b.loginOk u p && decide (b.rem.length < b.maxRemote) then
+      ((n.upd y (Node.addSession ⟨n.nextId, u, n.time, peer⟩)).bump (n.nextId + 1), .success)
+    else (n, .failure)
+
+/-- direct request `user-session-manager remote_logout <id>`: `_logout(local=False, id)`, not forced (repaired code: an
+unknown id ends nothing and answers failure) -/
+def opUsmLogout (n : Net) (y i : Nat) : Net × Out :=
+  match n.node y with
+  | none => (n, .unreachable)
+  | some nd =>
+    if !nd.isOn then (n, .failure) else
+    if !nd.canUsm then (n, .failure) else
+    match nd.rem[i]? with
+    | none => (n, .failure)
+    | some s =>
+      ((disconnect n.fuel n y s.id).upd y (Node.dropSession s.id),
+       match (disconnect n.fuel n y s.id).node y with
+       | some b => boolOut (b.hasSession s.id)
+       | none => .failure)
+
+/-- `Node.apply_request(c)` on node `y` -/
+def execCmd : Cmd → Net → Nat → Net × Out
+  | .file k, n, y => opFile n y k
+  | .addUser u p adm, n, y => opAddUser n y u p adm
+  | .disableUser u, n, y => opDisableUser n y u
+  | .changePassword u old new, n, y => opChangePassword n y u old new
+  | .localCmd u p c, n, y => opLocalCmdK (fun m => execCmd c m y) n y u p
+  | .remoteLogin z u p, n, y => opRemoteLogin n y z u p
+  | .remoteCmd z c, n, y => opRemoteCmdK (fun m => execCmd c m z) n y z
+  | .remoteLogoff z, n, y => opRemoteLogoff n y z
+  | .usmLogin u p peer, n, y => opUsmLogin n y u p peer
+  | .usmLogout i, n, y => opUsmLogout n y i
+  | .svc w v, n, y => opSvc n y w v
+  | .shutdown, n, y => opShutdown n y
+  | .startup, n, y => opStartup n y
+  | .reset, n, y => opReset n y
+
 def step (n : Net) : Op → Net × Out
-  | .addUser y u p adm => opAddUser n y u p adm
-  | .disableUser y u => opDisableUser n y u
-  | .changePassword y u old new => opChangePassword n y u old new
+  | .req y c => execCmd c n y
+  | .enableUser y u => opEnableUser n y u
   | .localLogin y u p => opLocalLogin n y u p
   | .localLogout y => opLocalLogout n y
-  | .localCmd y u p k => opLocalCmd n y u p k
-  | .remoteLogin x y u p => opRemoteLogin n x y u p
-  | .remoteCmd x y k => opRemoteCmd n x y k
-  | .remoteLogoff x y => opRemoteLogoff n x y
-  | .svc y w v => opSvc n y w v
-  | .shutdown y => opShutdown n y
-  | .startup y => opStartup n y
-  | .reset y => opReset n y
   | .tick => (tick n, .success)
 
 def run (n : Net) : List Op → Net
